@@ -52,6 +52,10 @@ pub fn run(ctx: &Ctx) {
     let es: Vec<SEnum> = vec![SEnum::A, SEnum::B(-300), SEnum::C(255, i32::MIN), SEnum::D { x: u64::MAX, y: Some(true) }, SEnum::D { x: 0, y: None }, SEnum::F {}, SEnum::G(SNew(7)), SEnum::H(vec![1, 300]), SEnum::I { only: 300 }, SEnum::J { zeta: 1, alpha: true }, SEnum::J { zeta: 2, alpha: false }];
     chk::<SEnum>(ctx, "SEnum", es.clone(), &mut n);
     chk::<Vec<SEnum>>(ctx, "Vec<SEnum>", vec![vec![], es.clone()], &mut n);
+    // enums with more than 128 variants: two-byte discriminants for unit and data-carrying variants
+    chk::<SBig>(ctx, "SBig(130 variants)", SBig::all(), &mut n);
+    chk::<(SBig, u8)>(ctx, "(SBig, u8)", SBig::all().into_iter().map(|e| (e, 5u8)).collect(), &mut n);
+    chk::<Vec<SBig>>(ctx, "Vec<SBig>", vec![SBig::all()], &mut n);
     chk::<SOuter>(
         ctx,
         "SOuter",
